@@ -25,13 +25,17 @@ from common import Str, sx
 ID = 'C02'
 LEAN_MODULES = ['Cellml.C02.Table', 'Cellml.Props.C02']
 N = {'quick': 500, 'thorough': 20000}
-RULE = ('exhaustive tier (always): every tag of the generated operator table and the 6 explicit operator handlers x '
-        'arity 0..4 x operand mode (distinct symbols / numeric literals incl. negative, zero, non-integer / ill-sorted), '
-        'every qualifier (degree, logbase, bvar, bvar+degree) x position x operator, degree/logbase/bvar content '
-        'variants, piecewise shapes, 120 <cn> texts plain and e-notation, unknown elements and structural faults; '
-        'random tier: N sort-directed nestings to depth 5 over the same vocabulary, 30% with one injected fault. '
-        'Every case is evaluated at 6 sample environments (values -2.5..3 incl. 0, negative, non-integer). '
-        'non-trivial = contains an apply/piecewise/cn and the model did not abstain; distinct = distinct tree JSON')
+RULE = ('exhaustive tier (always, about 4 000 trees): every tag of the generated operator table and the 6 explicit '
+        'operator handlers (56) x arity 0..4 x operand mode (distinct symbols / numeric literals incl. negative, zero, '
+        'non-integer / ill-sorted), 12 x 7 operand values for every binary and 12 for every unary operator, every qualifier '
+        '(degree, logbase, bvar, bvar+degree) x position x 10 operators, 25 degree/logbase/bvar contents x 4 operand lists, '
+        'piecewise shapes (0-3 pieces x otherwise none/last/first/twice, 16 malformed children), 75 <cn> texts plain and '
+        'e-notation, 16 exponent texts, 9 type attributes, child shapes, 17 unknown elements x 4 positions, 14 kinds of '
+        'apply head x 0-3 operands; random tier: N sort-directed nestings to depth 5 over the same vocabulary, 30% with one '
+        'injected fault (arity +/-, nullary, unknown operator/operand, qualifier wrapper, ill-sorted operand, malformed '
+        'number, operator swap, piece arity). Every case is evaluated at 6 sample environments (multiples of 0.25 in '
+        '-3..4, one environment with zeros; truth values for p,q,r,s). non-trivial = the tree contains an apply, a '
+        'piecewise or a cn; distinct = distinct tree JSON')
 TRUSTED = ['Lean 4.33 kernel', 'axioms: propext, Classical.choice, Quot.sound',
            'harness/translate_tables.py (operator table, n-ary relation set, handler keys)',
            'correspondence harness harness/props/c02.py (term evaluator Ev, reference interpreter Ref)',
@@ -776,7 +780,12 @@ def same_calls(m, obs):
     except RecursionError:
         return obs['out'] == 'err:RecursionError'
     except Exception as e:
-        return obs['out'] == 'err:' + type(e).__name__
+        if obs['out'] == 'err:' + type(e).__name__:
+            return True
+        # both are failures of SymPy's numeric evaluation of a literal; which one surfaces first depends on the order
+        # in which operands and relations are built (the code builds every operand before the first relation)
+        return obs['out'] != 'ok' and eager_error(obs) and \
+            eager_error({'out': 'err:' + type(e).__name__, 'msg': str(e)})
     if obs['out'] != 'ok':
         return False
     try:
@@ -869,31 +878,6 @@ EAGER = re.compile(r'Modulo by zero|is not comparable|Invalid comparison of non-
 
 def eager_error(obs):
     return obs['out'] in ('err:ZeroDivisionError', 'err:NotImplementedError') or bool(EAGER.search(obs.get('msg') or ''))
-
-
-def subterms(t):
-    if isinstance(t, list) and t and t[0] in ('app', 'tuple', 'pylist'):
-        if t[0] == 'app':
-            yield t
-        for a in t[1:]:
-            yield from subterms(a)
-
-
-def term_undefined_everywhere(m):
-    for sub in subterms(m):
-        if sub[1] == 'Piecewise':
-            continue
-        defined = False
-        for i in range(N_ENVS):
-            try:
-                two_precisions(lambda: ev_term(sub, i))
-                defined = True
-                break
-            except Undef:
-                pass
-        if not defined:
-            return True
-    return False
 
 
 def nstr(a):
@@ -1756,7 +1740,7 @@ MANIFEST = {
              'e-notation shape / malformed text, operand counts of every operator => error; the inputs that are NOT '
              'rejected are theorems too. Tie: 5 500 exhaustive + N random trees per run through Transpiler().parse_string '
              'versus the compiled model (outcome class exactly; value of the model term against SymPy\'s own value at 6 '
-             'environments); independent oracle = mpmath reference interpreter of MathML 2 over the reals. 15 known '
+             'environments); independent oracle = mpmath reference interpreter of MathML 2 over the reals. 16 known '
              'findings (findings/C02.json).'),
     'note': ('Trusted: Lean kernel; propext, Classical.choice, Quot.sound; the translator for the three tables; the '
              'correspondence harness. SymPy 1.14 is modelled, not verified (class arities, operand sorts, meaning of each '
